@@ -40,6 +40,8 @@ PLAN = {
         "level": "proof",
         "witness": mixed_witness,
         "verus_units": ["codec_dec", "codec_enc", "replace_splice", "replace_helpers", "helpers_tokens", "rope_bounds"],
+        "extra_stages": [k5_codec_cross],
+        "kani": True,
         "technique": "contract-based deductive verification (Verus): overflow/shift/index/termination obligations of the real decoder and encoders under a representation invariant",
         "claim": "Partial, unbounded proof: MappingsDecoder::next never overflows, shifts out of range, indexes out of bounds or diverges on any byte string "
                  "< 4 GiB for any number of calls (struct invariant preserved); encode_vlq is panic-free for every pair of u32 and both encoders for every sequence of "
